@@ -1,12 +1,12 @@
 package props
 
 import (
-	"sort"
 	"fmt"
 	"go/ast"
 	"go/token"
 	"go/types"
 	"regexp"
+	"sort"
 	"strings"
 
 	"octoverif/core"
